@@ -251,13 +251,14 @@ pub fn graphql_type_annotation_from_type_annotation(
             GraphQLNonNullTypeAnnotation::Named(GraphQLNamedTypeAnnotation(scalar_entity_name.0))
                 .boxed(),
         ),
-        TypeAnnotationDeclaration::Plural(type_annotation) => GraphQLTypeAnnotation::List(
-            GraphQLListTypeAnnotation(
+        // like Scalar, a Plural that is not wrapped in a nullable Union is a non-null type: `[T]!`
+        TypeAnnotationDeclaration::Plural(type_annotation) => GraphQLTypeAnnotation::NonNull(
+            GraphQLNonNullTypeAnnotation::List(GraphQLListTypeAnnotation(
                 type_annotation
                     .as_ref()
                     .as_ref()
                     .map(graphql_type_annotation_from_type_annotation),
-            )
+            ))
             .boxed(),
         ),
         TypeAnnotationDeclaration::Union(union_type_annotation) => {
